@@ -18,7 +18,8 @@ impl Transform for Slice {
             to = str.len();
         }
 
-        str[from..to].to_string()
+        // from > to, or a bound inside a multi-byte character: nothing to extract (indexing would panic)
+        str.get(from..to).unwrap_or_default().to_string()
     }
 }
 
